@@ -10,7 +10,7 @@ from ..model import ClassInfo
 from ..printer import (ModelPrinter, Unsupported, extract_printer_table, _Conv,
                        _prec_value)
 from ..rules import handler_summaries
-from ..summary import NODE, contains, summarize
+from ..summary import NODE, case_split, contains, content, summarize
 
 CC = "pymbolic.mapper.c_code"
 STR = "pymbolic.mapper.stringifier"
@@ -514,8 +514,11 @@ def _cse_bookkeeping(ctx, model):
                 final[e.name] = e.value
         where = cm.module.loc(init.node)
         # cse_names: must be built from component 0 (NAME)
+        # `x = [] if x is None else list(x)` is the if/else statement in one
+        # expression, and list(x) holds what x holds
         v = final.get("cse_names")
-        ok = _built_from_component(v, param, 0, "set")
+        ok = v is not None and all(_built_from_component(w, param, 0, "set")
+                                   for w in case_split(content(v)))
         ctx.ob("S/c-cse/init/cse_names-role", ok, where,
                "cse_names is initialised with the names" if ok else
                "CCodeMapper.__init__ fills cse_names with something other than "
@@ -531,8 +534,12 @@ def _cse_bookkeeping(ctx, model):
                "CCodeMapper.__init__ keys cse_to_name by the generated *text* of "
                "each pair; the map is looked up by child expression")
         v = final.get("cse_name_list")
-        ok = v is not None and (v[0] == "slice" and v[2:] == (None, None) or (
-            v[0] == "call" and v[1] in ("list", f"{param}.copy")))
+
+        def fresh(w):
+            return (w[0] == "slice" and w[2:] == (None, None)) or (
+                w[0] == "call" and w[1] in ("list", f"{param}.copy")) \
+                or w[0] == "copy" or (w[0] == "lit" and w[1] == "list")
+        ok = v is not None and all(fresh(w) for w in case_split(v))
         ctx.ob("S/c-cse/init/cse_name_list-copied", ok, where,
                "cse_name_list is copied, not shared" if ok else
                "CCodeMapper.__init__ does not copy the list it is given: copies "
